@@ -155,6 +155,7 @@ static void c08_rewrite(Case& cs) {
   if (rs.widened) cs.st.cls("rw:widened_head"); if (rs.indef_cont) cs.st.cls("rw:indefinite"); if (rs.chunked) cs.st.cls("rw:chunked_string");
   if (rs.permuted) cs.st.cls("rw:permuted_map"); if (rs.inserted) cs.st.cls("rw:unknown_member");
   if (o.dropped_default_index) cs.st.cls("rw:default_block_parameters_index_omitted");
+  if (o.deep_spliced) cs.st.cls("rw:unknown_member_nested_1000..300000_deep");
   cs.st.cnt("rewrites_applied", rs.total());
 }
 
